@@ -121,7 +121,40 @@ def select_case(draw):
 
 
 @st.composite
+def native_case(draw):
+    """A (descriptor, iterators) source holding native values of mixed classes, loaded with the 'strings' cast strategy."""
+    ncol = draw(st.integers(1, 3))
+    pool = ['a', '', 5, 0, 2.5, True, False, None, decimal.Decimal('1.50'), datetime.date(2020, 2, 29), [1, 'x'], {'k': 1}]
+    rows = [[draw(st.sampled_from(pool)) for _ in range(ncol)] for _ in range(draw(st.integers(1, 8)))]
+    return {'size': 'native', 'ncol': ncol, 'rows': rows}
+
+
+def check_native(case, ctx):
+    names = ['c%d' % i for i in range(case['ncol'])]
+    desc = gen.descriptor_of([{'name': 'nat', 'fields': [{'name': n, 'type': 'any'} for n in names], 'rows': []}])
+    rows = [dict(zip(names, r)) for r in case['rows']]
+    try:
+        with quiet():
+            res, dp_, _ = Flow(dataflows.load((desc, [iter(copy.deepcopy(rows))]), strip=False,
+                                              cast_strategy=dataflows.load.CAST_TO_STRINGS)).results(on_error=None)
+    except Exception as e:
+        raise unexpected(e, 'load of native values with the strings strategy')
+    if len(res) != 1 or len(res[0]) != len(rows):
+        raise Violation('native-strings:row-count', {'got': [len(t) for t in res], 'expected': len(rows)})
+    for g, e in zip(res[0], rows):
+        for k in names:
+            if not isinstance(g.get(k), str):
+                raise Violation('strings-strategy-yields-non-string', {'field': k, 'got': g.get(k), 'source': e[k]})
+            if g[k] != (e[k] if isinstance(e[k], str) else str(e[k])):
+                raise Violation('native-strings:value', {'field': k, 'got': g[k], 'source': e[k]})
+    mixed = any(len({type(r[i]).__name__ for r in case['rows']}) > 1 for i in range(case['ncol']))
+    return Info(nontrivial=mixed, classes=['native-values:strings-strategy'])
+
+
+@st.composite
 def _mix(draw, tier):
+    if gen.rare(draw, 60):
+        return draw(native_case())
     if gen.rare(draw, 40 if tier == 'thorough' else 15):
         return draw(big_case())
     if gen.rare(draw, 120):
@@ -159,6 +192,8 @@ def strip_ok(got, v):
 
 
 def check(case, ctx):
+    if case['size'] == 'native':
+        return check_native(case, ctx)
     if case['size'] == 'select':
         # package / (descriptor, iterators) sources: exactly the requested resources are loaded
         from props import c10
